@@ -29,10 +29,14 @@ type Monitor struct {
 	// instead of being reported as interleaving.
 	Abandonable func(r spec.Req) bool
 	// Delay returns how long the reply to the request is withheld (the exchange stays open meanwhile).
-	Delay func(r spec.Req) time.Duration
+	Delay   func(r spec.Req) time.Duration
 	Dropped int
 	// CloseDelay makes Close() of every connection take this long
 	CloseDelay time.Duration
+	// FlushDelay makes Flush() take this long; Flushes counts calls, FlushDiscarded the unread reply bytes thrown away by them
+	FlushDelay     time.Duration
+	Flushes        int
+	FlushDiscarded int
 	// Wake lets tests observe activity
 	conns int
 }
@@ -57,7 +61,7 @@ type ArrivalConn struct {
 	yields   []int
 	closed   bool
 	deadline time.Time
-	busy     int // number of transport calls currently inside Read/Write (overlap detection)
+	busy     int       // number of transport calls currently inside Read/Write (overlap detection)
 	owner    spec.Req  // request whose reply is pending
 	readyAt  time.Time // the pending reply becomes readable at this time
 }
@@ -198,6 +202,37 @@ func (c *ArrivalConn) Read(p []byte) (int, error) {
 	c.busy--
 	m.mu.Unlock()
 	return n, nil
+}
+
+// Flush is the optional serial-port operation that discards buffered input. Like every transport call it must not overlap
+// another call on the same port; it takes a moment (FlushDelay) and throws away whatever reply bytes are unread.
+func (c *ArrivalConn) Flush() error {
+	m := c.M
+	m.mu.Lock()
+	if c.closed {
+		m.mu.Unlock()
+		return net.ErrClosed
+	}
+	c.busy++
+	if c.busy > 1 {
+		m.violate("conn %d: Flush called while another transport call on the same connection is in progress", c.id)
+	}
+	m.Flushes++
+	d := m.FlushDelay
+	m.mu.Unlock()
+	if d > 0 {
+		time.Sleep(d)
+	} else {
+		runtime.Gosched()
+	}
+	m.mu.Lock()
+	if len(c.pending) > 0 {
+		m.FlushDiscarded += len(c.pending)
+		c.pending = nil
+	}
+	c.busy--
+	m.mu.Unlock()
+	return nil
 }
 
 // Close marks the connection closed; later calls fail with net.ErrClosed. CloseDelay makes Close slow (a port that takes a
